@@ -246,7 +246,7 @@ def make(sw, invert):
 
 def body(ctx):
     quick = ctx.tier == "quick"
-    plans = [("s1", make("s1", 0), 5 if quick else 7), ("s2", make("s2", 1), 4 if quick else 6),
+    plans = [("s1", make("s1", 0), 5 if quick else 6), ("s2", make("s2", 1), 4 if quick else 6),
              ("s3", make("s3", 0), 4 if quick else 6), ("s4window", WindowDriver, 7 if quick else 10)]
     states = trans = 0
     detail = {}
